@@ -75,7 +75,7 @@ func TokensRaw(v val.V, short, raw bool) []Tok {
 	return out
 }
 
-var seps = []string{" ", " ", " ", "  ", "\t", "\n", "\n", "\r\n", "\n\n", " ; comment\n", "\n;; $x 1\n", " ;( unbalanced ] \" comment\r\n", "\n  ", " ;\n"}
+var seps = []string{" ", " ", " ", "  ", "\t", "\n", "\n", "\r\n", "\n\n", " ; comment\n", "\n;; $x 1\n", " ;( unbalanced ] \" comment\r\n", "\n  ", " ;\n", ";glued comment ) ] }\n", ";(\n", ";\n"}
 
 // Sep draws a separator; must=false allows the empty separator.
 func Sep(t *rapid.T, must bool) string {
